@@ -6,6 +6,9 @@
 HERE="$(cd "$(dirname "$0")/.." && pwd)"
 PAT="${1:-}"
 fail=0; n=0
+# private copy of the verifier so that the corpus can run while the engine is being rebuilt
+"$HERE/check" C00 quick >/dev/null 2>&1
+BINDIR=$(mktemp -d /tmp/vcgo-selftest-bin-XXXXXX); cp "$HERE/bin/vcgo" "$BINDIR/vcgo"
 for d in "$HERE"/selftest/mutations/*${PAT}*.diff; do
   [ -f "$d" ] || continue
   base=$(basename "$d" .diff)
@@ -16,10 +19,11 @@ for d in "$HERE"/selftest/mutations/*${PAT}*.diff; do
   rsync -a --exclude .git /repo/ "$scratch/"
   if ! (cd "$scratch" && patch -p1 -s < "$d"); then echo "PATCH-FAILED $base"; fail=1; rm -rf "$scratch"; continue; fi
   if ! (cd "$scratch" && GOFLAGS=-mod=mod GOPROXY=off GOSUMDB=off go build ./... >/dev/null 2>&1); then echo "DOES-NOT-COMPILE $base"; fail=1; rm -rf "$scratch"; continue; fi
-  out=$(VERIF_REPO="$scratch" VERIF_EVIDENCE_DIR="$scratch/.ev" "$HERE/check" "$prop" quick 2>&1); rc=$?
+  out=$(VCGO_BIN="$BINDIR/vcgo" VERIF_REPO="$scratch" VERIF_EVIDENCE_DIR="$scratch/.ev" VERIF_OUT_DIR="$scratch/.out" VERIF_REPLAY_DIR="$scratch/.replay" "$HERE/check" "$prop" quick 2>&1); rc=$?
   n=$((n+1))
   if [ "$rc" = "$expect" ]; then echo "ok       $base (exit $rc) $(echo "$out" | grep -c '^VIOLATION') violations"; else echo "WRONG    $base expected exit $expect got $rc"; echo "$out" | tail -5; fail=1; fi
   rm -rf "$scratch"
 done
+rm -rf "$BINDIR"
 echo "selftest: $n cases, fail=$fail"
 exit $fail
